@@ -81,6 +81,9 @@ class Report:
         for v in kn:
             lines.append('KNOWN-FINDING: property=%s %s [%s]' % (self.pid, known_keys[v['key']].get('what', v['detail']), v['key']))
         os.makedirs(os.path.join(VERIF, 'evidence', 'replay'), exist_ok=True)
+        import glob
+        for old in glob.glob(os.path.join(VERIF, 'evidence', 'replay', '%s-*.json' % self.pid)):
+            os.remove(old)
         # unique new violations by key (the same key may fire under several cfg sets)
         uniq = {}
         for v in new:
